@@ -232,7 +232,8 @@ Record Touch (c : CtxId) (s s' : State) : Prop := mkTouch {
 }.
 
 Ltac touch_auto :=
-  constructor; sproj; intros; rewrite ?get_set_neq, ?get_del_neq by assumption;
+  constructor; sproj; intros;
+  repeat first [rewrite get_set_neq by assumption | rewrite get_del_neq by assumption];
   try reflexivity; try incl_auto.
 
 Lemma Touch_refl c s : Touch c s s.
@@ -590,4 +591,205 @@ Proof.
     eapply SEq_trans; [exact Hmid|apply SEq_complete_batch].
   - eexists _, _. split; [exact Hq|]. split; [exact Hrc0|].
     split; [exact Hmid|]. split; [reflexivity|left; reflexivity].
+Qed.
+
+(* ------------------------------------------------------------------ *)
+(* expire_one *)
+
+Definition more (rc : Ctx) : bool :=
+  c_rep rc && ((c_total rc <? 0) || (c_counter rc <? c_total rc)).
+
+Definition expire_tail (s1 : State) (c : CtxId) (H : Z) (rc1 : Ctx) : State :=
+  let s2 := put_ctx (del_expq s1 c H) c rc1 in
+  match c_state rc1 with
+  | Completed => del_ctx s2 c
+  | Running =>
+      if more rc1 then add_newq s2 c (wrap_i64 (H - c_timeout rc1 + to_i64 (c_freq rc1)))
+      else del_ctx s2 c
+  | Paused => s2
+  end.
+
+Lemma expire_one_unfold cfg s c :
+  exists s1 rc1, SEq s s1
+    /\ (rc1 = ctx_or_zero s c
+        \/ (c_bdone (ctx_or_zero s c) = false /\ rc1 = setc_bdone (ctx_or_zero s c) true))
+    /\ expire_one cfg s c = clean_batch (expire_tail s1 c (height s) rc1) c (c_counter rc1).
+Proof.
+  unfold expire_one. set (rc := ctx_or_zero s c).
+  destruct (c_bdone rc) eqn:Eb.
+  - exists s, rc. split; [apply SEq_refl|]. split; [now left|reflexivity].
+  - exists (fst (complete_batch (fold_left (expire_req cfg) (active_rids s c (c_counter rc)) s) c rc)),
+           (setc_bdone rc true).
+    split; [|split; [right; split; reflexivity|reflexivity]].
+    eapply SEq_trans; [|apply SEq_complete_batch]. apply SEq_fold. intros; apply SEq_expire_req.
+Qed.
+
+Lemma expire_tail_view s1 c H rc1 :
+  wf (ctxs s1) -> wf (expq_h s1) -> qpair (expq s1) (expq_h s1) -> qpair (newq s1) (newq_h s1) ->
+  In (H, c) (expq s1) -> get c (newq_h s1) = None ->
+  let T := expire_tail s1 c H rc1 in
+  Touch c s1 T /\ qpair (expq T) (expq_h T) /\ qpair (newq T) (newq_h T)
+  /\ get c (expq_h T) = None
+  /\ (   (get c (ctxs T) = None /\ get c (newq_h T) = None
+          /\ (c_state rc1 = Completed \/ (c_state rc1 = Running /\ more rc1 = false)))
+      \/ (get c (ctxs T) = Some rc1
+          /\ get c (newq_h T) = Some (wrap_i64 (H - c_timeout rc1 + to_i64 (c_freq rc1)))
+          /\ c_state rc1 = Running /\ more rc1 = true)
+      \/ (get c (ctxs T) = Some rc1 /\ get c (newq_h T) = None /\ c_state rc1 = Paused)).
+Proof.
+  intros Wc We Q1 Q2 Hin Hn T. subst T. unfold expire_tail.
+  assert (Q1' : qpair (lrem (H, c) (expq s1)) (del c (expq_h s1))) by (apply qpair_del; assumption).
+  assert (Ed : get c (del c (expq_h s1)) = None) by (apply get_del_eq; assumption).
+  assert (Edc : get c (del c (set c rc1 (ctxs s1))) = None) by (apply get_del_eq, wf_set; assumption).
+  destruct (c_state rc1) eqn:Es; [destruct (more rc1) eqn:Em| |].
+  - split; [touch_auto|]. sproj. split; [exact Q1'|]. split; [apply qpair_add; assumption|].
+    split; [exact Ed|]. right; left. rewrite !get_set_eq. auto.
+  - split; [touch_auto|]. sproj. split; [exact Q1'|]. split; [exact Q2|].
+    split; [exact Ed|]. left. auto.
+  - split; [touch_auto|]. sproj. split; [exact Q1'|]. split; [exact Q2|].
+    split; [exact Ed|]. right; right. rewrite get_set_eq. auto.
+  - split; [touch_auto|]. sproj. split; [exact Q1'|]. split; [exact Q2|].
+    split; [exact Ed|]. left. auto.
+Qed.
+
+Lemma expire_one_spec cfg s c :
+  wf_cfg cfg -> Inv cfg s -> In (height s, c) (expq s) -> height s < HEIGHT_BOUND ->
+  let s' := expire_one cfg s c in
+  exists rc rc1,
+    get c (ctxs s) = Some rc /\ get c (expq_h s) = Some (height s) /\ get c (newq_h s) = None
+    /\ (rc1 = rc \/ (c_bdone rc = false /\ rc1 = setc_bdone rc true))
+    /\ Touch c s s'
+    /\ qpair (expq s') (expq_h s') /\ qpair (newq s') (newq_h s')
+    /\ get c (expq_h s') = None
+    /\ (   (get c (ctxs s') = None /\ get c (newq_h s') = None
+            /\ (c_state rc = Completed \/ (c_state rc = Running /\ more rc = false)))
+        \/ (get c (ctxs s') = Some rc1
+            /\ get c (newq_h s') = Some (height s - c_timeout rc + c_freq rc)
+            /\ c_state rc = Running /\ more rc = true)
+        \/ (get c (ctxs s') = Some rc1 /\ get c (newq_h s') = None /\ c_state rc = Paused)).
+Proof.
+  intros Hcfg HI Hdue Hb s'. subst s'.
+  destruct (due_exp _ _ _ HI Hdue) as (rc & Erc & Ee & En).
+  destruct (Inv_wf_sched _ _ HI) as (Wc & We & Wn).
+  destruct (Inv_qpairs _ _ HI) as (Q1 & Q2).
+  destruct (I_ctx_get _ _ _ _ (inv_ctx _ _ HI) Erc) as (Hok & _).
+  pose proof (inv_time _ _ HI) as [Hh _].
+  destruct (expire_one_unfold cfg s c) as (s1 & rc1 & Hs1 & Hrc1 & ->).
+  assert (Ez : ctx_or_zero s c = rc) by (unfold ctx_or_zero; now rewrite Erc).
+  rewrite Ez in Hrc1.
+  assert (Hsame : c_state rc1 = c_state rc /\ more rc1 = more rc /\ c_timeout rc1 = c_timeout rc
+                  /\ c_freq rc1 = c_freq rc /\ c_rep rc1 = c_rep rc).
+  { destruct Hrc1 as [->|[_ ->]]; repeat split; reflexivity. }
+  destruct Hsame as (Est & Emo & Eti & Efr & Ere).
+  exists rc, rc1. split; [exact Erc|]. split; [exact Ee|]. split; [exact En|]. split; [exact Hrc1|].
+  pose proof (SEq_clean_batch (expire_tail s1 c (height s) rc1) c (c_counter rc1)) as Hcl.
+  pose proof (SEq_Touch c _ _ Hs1) as Ht1.
+  pose proof Hs1 as Hs1'.
+  destruct Hs1' as [Eh1 Et1 Ec1 Eq1 Eqh1 En1 Enh1 El1].
+  destruct (expire_tail_view s1 c (height s) rc1) as (HtT & Q1T & Q2T & EeT & Hcase);
+    try (rewrite ?Ec1, ?Eq1, ?Eqh1, ?En1, ?Enh1; assumption).
+  set (T := expire_tail s1 c (height s) rc1) in *.
+  split; [eapply Touch_trans; [exact Ht1|]; eapply Touch_trans; [exact HtT|apply SEq_Touch, Hcl]|].
+  destruct Hcl as [EhT EtT EcT EqT EqhT EnT EnhT ElT].
+  rewrite EcT, EqT, EqhT, EnT, EnhT. rewrite <- Est, <- Emo.
+  split; [exact Q1T|]. split; [exact Q2T|]. split; [exact EeT|].
+  destruct Hcase as [Hc|[Hc|Hc]]; [left; exact Hc| |right; right; exact Hc].
+  right; left. destruct Hc as (A & B & C & D). split; [exact A|]. split; [|auto].
+  rewrite B, Eti, Efr. f_equal.
+  unfold ctx_ok in Hok. rewrite Emo in D. unfold more in D.
+  apply andb_prop in D. destruct D as [Dr _].
+  apply next_batch_height; try lia. apply Hok; exact Dr.
+Qed.
+
+(* ------------------------------------------------------------------ *)
+(* new_one *)
+
+Definition d5 (rc : Ctx) : bool :=
+  is_state rc Running && c_rep rc && (0 <? c_total rc) && (c_total rc <=? c_counter rc).
+
+Definition bump (rc : Ctx) (n : Z) : Ctx :=
+  setc_bthr (setc_breq (setc_bresp (setc_bdone
+    (setc_counter rc (c_counter rc + 1)) false) 0) n) (c_thr rc).
+
+Definition paused_ctx (rc : Ctx) : Ctx := setc_state (setc_bdone rc true) Paused.
+
+Lemma new_one_unfold cfg s c rc : get c (ctxs s) = Some rc ->
+  (d5 rc = true /\ new_one cfg s c = del_newq (del_ctx s c) c (height s))
+  \/ (d5 rc = false /\ c_state rc = Running /\ exists sm n, SEq s sm
+      /\ new_one cfg s c =
+         del_newq (add_expq (emit (EvBatchStart c (c_counter rc + 1) (height s) n)
+                               (put_ctx sm c (bump rc n))) c (height s + c_timeout rc)) c (height s))
+  \/ (d5 rc = false /\ c_state rc = Running /\ exists sm, SEq s sm
+      /\ new_one cfg s c = del_newq (put_ctx sm c (paused_ctx rc)) c (height s))
+  \/ (c_state rc <> Running /\ new_one cfg s c = del_newq s c (height s)).
+Proof.
+  intros Erc. unfold new_one.
+  assert (Ez : ctx_or_zero s c = rc) by (unfold ctx_or_zero; now rewrite Erc). rewrite Ez.
+  change (is_state rc Running && c_rep rc && (0 <? c_total rc) && (c_total rc <=? c_counter rc))
+    with (d5 rc).
+  destruct (d5 rc) eqn:Hd; [left; auto|right].
+  destruct (is_state rc Running) eqn:Hr.
+  2:{ right; right. apply is_state_false in Hr. auto. }
+  apply is_state_true in Hr.
+  set (el := filter_providers s rc (c_provs rc)).
+  destruct ((0 <? len el) && (c_thr rc <=? len el)).
+  - destruct (c_super rc).
+    + left. split; [reflexivity|]. split; [exact Hr|].
+      unfold initiate_requests. rewrite Ez.
+      exists (issue_all s c rc (c_counter rc + 1) 0 (map fst el)), (len (map fst el)).
+      split; [apply SEq_issue_all|reflexivity].
+    + destruct (transfer (User (c_cons rc)) Escrow (sum_prices el) s) as [x|] eqn:Et.
+      * left. split; [reflexivity|]. split; [exact Hr|].
+        pose proof (SEq_transfer _ _ _ _ _ Et) as Hx.
+        set (sp := emit (EvDebit c (c_cons rc) (sum_prices el)) x).
+        assert (Hsp : SEq s sp) by (subst sp; seq_step).
+        assert (Ez' : ctx_or_zero sp c = rc) by (unfold ctx_or_zero; now rewrite (se_ctxs _ _ Hsp), Erc).
+        unfold initiate_requests. rewrite Ez', (se_height _ _ Hsp).
+        exists (issue_all sp c rc (c_counter rc + 1) 0 (map fst el)), (len (map fst el)).
+        split; [eapply SEq_trans; [exact Hsp|apply SEq_issue_all]|reflexivity].
+      * right; left. split; [reflexivity|]. split; [exact Hr|].
+        unfold on_paused. destruct (c_mod rc =? 0).
+        -- exists s. split; [apply SEq_refl|reflexivity].
+        -- exists (emit (EvCbState c) s). split; [apply SEq_emit|reflexivity].
+  - left. split; [reflexivity|]. split; [exact Hr|].
+    exists s, 0. split; [apply SEq_refl|reflexivity].
+Qed.
+
+Lemma new_one_spec cfg s c :
+  Inv cfg s -> In (height s, c) (newq s) ->
+  let s' := new_one cfg s c in
+  exists rc, get c (ctxs s) = Some rc /\ get c (newq_h s) = Some (height s)
+    /\ get c (expq_h s) = None
+    /\ Touch c s s' /\ qpair (expq s') (expq_h s') /\ qpair (newq s') (newq_h s')
+    /\ get c (newq_h s') = None
+    /\ (   (d5 rc = true /\ get c (ctxs s') = None /\ get c (expq_h s') = None)
+        \/ (d5 rc = false /\ c_state rc = Running
+            /\ get c (expq_h s') = Some (height s + c_timeout rc)
+            /\ exists n, get c (ctxs s') = Some (bump rc n))
+        \/ (d5 rc = false /\ c_state rc = Running /\ get c (expq_h s') = None
+            /\ get c (ctxs s') = Some (paused_ctx rc))
+        \/ (c_state rc <> Running /\ get c (expq_h s') = None /\ get c (ctxs s') = Some rc)).
+Proof.
+  intros HI Hdue s'. subst s'.
+  destruct (due_new _ _ _ HI Hdue) as (rc & Erc & En & Ee).
+  destruct (Inv_wf_sched _ _ HI) as (Wc & We & Wn).
+  destruct (Inv_qpairs _ _ HI) as (Q1 & Q2).
+  assert (Q2' : qpair (lrem (height s, c) (newq s)) (del c (newq_h s))) by (apply qpair_del; assumption).
+  assert (Ed : get c (del c (newq_h s)) = None) by (apply get_del_eq; assumption).
+  exists rc. split; [exact Erc|]. split; [exact En|]. split; [exact Ee|].
+  destruct (new_one_unfold cfg s c rc Erc)
+    as [(Hd & ->)|[(Hd & Hr & sm & n & Hsm & ->)|[(Hd & Hr & sm & Hsm & ->)|(Hr & ->)]]].
+  - split; [touch_auto|]. sproj. split; [exact Q1|]. split; [exact Q2'|]. split; [exact Ed|].
+    left. split; [exact Hd|]. split; [apply get_del_eq; assumption|exact Ee].
+  - split; [eapply Touch_trans; [apply SEq_Touch, Hsm|touch_auto]|].
+    sproj. destruct Hsm as [Eh1 Et1 Ec1 Eq1 Eqh1 En1 Enh1 El1]. rewrite Ec1, Eq1, Eqh1, En1, Enh1.
+    split; [apply qpair_add; assumption|]. split; [exact Q2'|]. split; [exact Ed|].
+    right; left. split; [exact Hd|]. split; [exact Hr|]. split; [apply get_set_eq|].
+    exists n. apply get_set_eq.
+  - split; [eapply Touch_trans; [apply SEq_Touch, Hsm|touch_auto]|].
+    sproj. destruct Hsm as [Eh1 Et1 Ec1 Eq1 Eqh1 En1 Enh1 El1]. rewrite Ec1, Eq1, Eqh1, En1, Enh1.
+    split; [exact Q1|]. split; [exact Q2'|]. split; [exact Ed|].
+    right; right; left. split; [exact Hd|]. split; [exact Hr|]. split; [exact Ee|apply get_set_eq].
+  - split; [touch_auto|]. sproj. split; [exact Q1|]. split; [exact Q2'|]. split; [exact Ed|].
+    right; right; right. auto.
 Qed.
